@@ -67,3 +67,6 @@ def run(ctx):
     from . import c14 as _c14
 
     _c14.gf_algebra(ctx)  # (tools/wiring.py) sums of grid functions held as projections: same dual space or through the coefficients
+    from .. import fx as _fx13
+
+    _fx13.parameter_resolution(ctx)  # (tools/wiring.py) sparse operators and projections take their quadrature order from the resolved parameter object
